@@ -1,6 +1,6 @@
 (** C40 — proofs: entry point.  The lemmas live in the parts
     P_C40_base (normal-form route, lists, names), P_C40_assoc (associates), P_C40_vec (vector notation, explicit
-    dimensions, range normalisation), P_C40_dce + P_C40_simp (dead-code removal, modelled simplification),
+    dimensions, range normalisation), P_C40_dce + P_C40_simp (dead-code removal, modelled simplification), P_C40_sel (dead-code removal with SELECT CASE),
     P_C40_lower + P_C40_lower2 (lower-casing), P_C40_decl (declarations, imports, sequence association). *)
-From LV Require Export proofs.P_C40_base proofs.P_C40_assoc proofs.P_C40_vec proofs.P_C40_dce proofs.P_C40_simp
+From LV Require Export proofs.P_C40_base proofs.P_C40_assoc proofs.P_C40_vec proofs.P_C40_dce proofs.P_C40_simp proofs.P_C40_sel
   proofs.P_C40_lower proofs.P_C40_lower2 proofs.P_C40_decl.
